@@ -231,6 +231,79 @@ pub fn main(args: &crate::Args) {
     ];
     let mut evals = 0usize;
     for i in 0..n {
+        // every 12th case: the Const / Public table (`WitnessSendAir`): no constraint, one send per lane
+        if i % 12 == 11 {
+            let d = [1usize, 2, 4, 5, 8][rng.usize(5)];
+            let lanes = 1 + rng.usize(3);
+            let ml: Vec<F> = (0..d * lanes).map(|_| rand_f(&mut rng)).collect();
+            let pl: Vec<F> = (0..2 * lanes).map(|_| rand_f(&mut rng)).collect();
+            let line = format!("send {d} {lanes} | {} | {}", vec_str(&ml), vec_str(&pl));
+            writeln!(cases, "{line}").unwrap();
+            evals += 1;
+            *hist.entry(format!("send.D{d}.lanes{lanes}")).or_default() += 1;
+            let run = || -> (Vec<F>, Vec<(Vec<F>, F)>) {
+                use p3_circuit_prover::air::PublicAir;
+                let zeros_m = vec![F::ZERO; ml.len()];
+                let zeros_p = vec![F::ZERO; pl.len()];
+                let mut b = ValBuilder { main: RowWindow::from_two_rows(&ml, &zeros_m), prep: RowWindow::from_two_rows(&pl, &zeros_p), cons: vec![], inter: vec![] };
+                match d {
+                    1 => PublicAir::<F, 1>::new(1, lanes).eval(&mut b),
+                    2 => PublicAir::<F, 2>::new(1, lanes).eval(&mut b),
+                    4 => PublicAir::<F, 4>::new(1, lanes).eval(&mut b),
+                    5 => PublicAir::<F, 5>::new(1, lanes).eval(&mut b),
+                    _ => PublicAir::<F, 8>::new(1, lanes).eval(&mut b),
+                }
+                (b.cons, b.inter)
+            };
+            match catch_unwind(AssertUnwindSafe(run)) {
+                Err(_) => {
+                    writeln!(implo, "panic").unwrap();
+                    violations.push(json!({"property":"C11","kind":"air-eval-panic","class":"panic","replay":{"case":line}}));
+                }
+                Ok((cons, inter)) => {
+                    writeln!(implo, "c {}", vec_str(&cons)).unwrap();
+                    writeln!(implo, "i {}", inter.iter().map(|(f, m)| format!("{}:{}", f.iter().map(|x| x.as_canonical_u64().to_string()).collect::<Vec<_>>().join(","), m.as_canonical_u64())).collect::<Vec<_>>().join(" ")).unwrap();
+                }
+            }
+            continue;
+        }
+        // every 12th case (offset 5): the `recompose` table, with and without coefficient lookups
+        if i % 12 == 5 {
+            let d = [2usize, 4, 5, 8][rng.usize(4)];
+            let lanes = 1 + rng.usize(3);
+            let coeff = rng.chance(1, 2);
+            let plw = if coeff { 2 + 2 * d } else { 2 };
+            let ml: Vec<F> = (0..d * lanes).map(|_| rand_f(&mut rng)).collect();
+            let pl: Vec<F> = (0..plw * lanes).map(|_| rand_f(&mut rng)).collect();
+            let line = format!("recompose {d} {lanes} {} | {} | {}", coeff as u8, vec_str(&ml), vec_str(&pl));
+            writeln!(cases, "{line}").unwrap();
+            evals += 1;
+            *hist.entry(format!("recompose.D{d}.lanes{lanes}.coeff{}", coeff as u8)).or_default() += 1;
+            let run = || -> (Vec<F>, Vec<(Vec<F>, F)>) {
+                use p3_circuit_prover::air::RecomposeAir;
+                let zeros_m = vec![F::ZERO; ml.len()];
+                let zeros_p = vec![F::ZERO; pl.len()];
+                let mut b = ValBuilder { main: RowWindow::from_two_rows(&ml, &zeros_m), prep: RowWindow::from_two_rows(&pl, &zeros_p), cons: vec![], inter: vec![] };
+                match d {
+                    2 => RecomposeAir::<F, 2>::new_with_preprocessed(lanes, vec![], 1, coeff).eval(&mut b),
+                    4 => RecomposeAir::<F, 4>::new_with_preprocessed(lanes, vec![], 1, coeff).eval(&mut b),
+                    5 => RecomposeAir::<F, 5>::new_with_preprocessed(lanes, vec![], 1, coeff).eval(&mut b),
+                    _ => RecomposeAir::<F, 8>::new_with_preprocessed(lanes, vec![], 1, coeff).eval(&mut b),
+                }
+                (b.cons, b.inter)
+            };
+            match catch_unwind(AssertUnwindSafe(run)) {
+                Err(_) => {
+                    writeln!(implo, "panic").unwrap();
+                    violations.push(json!({"property":"C11","kind":"air-eval-panic","class":"panic","replay":{"case":line}}));
+                }
+                Ok((cons, inter)) => {
+                    writeln!(implo, "c {}", vec_str(&cons)).unwrap();
+                    writeln!(implo, "i {}", inter.iter().map(|(f, m)| format!("{}:{}", f.iter().map(|x| x.as_canonical_u64().to_string()).collect::<Vec<_>>().join(","), m.as_canonical_u64())).collect::<Vec<_>>().join(" ")).unwrap();
+                }
+            }
+            continue;
+        }
         let (d, kind) = configs[i % configs.len()];
         let lanes = 1 + rng.usize(3);
         let kmax = 2 + rng.usize(5);
